@@ -5,7 +5,26 @@ use crate::p2::mass_properties::MassProperties as MP2;
 use crate::p2::shape::Triangle as Tri2;
 use std::panic::{catch_unwind, AssertUnwindSafe};
 
+use crate::p3::mass_properties::MassProperties as MP3;
 type P2 = d2::Point<f64>;
+type V3 = d3::Vector<f64>;
+
+fn fquat(q: &d3::na::UnitQuaternion<f64>) -> String { let c = q.as_ref().coords; format!("{} {} {} {}", ff(c[0]), ff(c[1]), ff(c[2]), ff(c[3])) }
+fn hquat(q: &d3::na::UnitQuaternion<f64>) -> String { let c = q.as_ref().coords; format!("{} {} {} {}", hx(c[0]), hx(c[1]), hx(c[2]), hx(c[3])) }
+fn fmp3(m: &MP3) -> String { format!("{} {} {} {}", d3::fp(&m.local_com), ff(m.inv_mass), d3::fv(&m.inv_principal_inertia_sqrt), fquat(&m.principal_inertia_local_frame)) }
+fn hmp3(m: &MP3) -> String { format!("{} {} {} {}", d3::hp(&m.local_com), hx(m.inv_mass), d3::hv(&m.inv_principal_inertia_sqrt), hquat(&m.principal_inertia_local_frame)) }
+fn mp3(a: &mut Args) -> MP3 {
+    let c = d3::p(a); let im = a.f(); let ii = d3::v(a);
+    let (i, j, k, w) = (a.f(), a.f(), a.f(), a.f());
+    MP3 { local_com: c, inv_mass: im, inv_principal_inertia_sqrt: ii,
+          principal_inertia_local_frame: d3::na::Unit::new_unchecked(d3::na::Quaternion::new(w, i, j, k)) }
+}
+/// row-major print of a 3x3 matrix
+fn fm3(m: &d3::na::Matrix3<f64>) -> String {
+    (0..3).map(|i| (0..3).map(|j| ff(m[(i, j)])).collect::<Vec<_>>().join(" ")).collect::<Vec<_>>().join(" ")
+}
+/// observable pair: mass(), local_com (the tensor goes through `symmetric_eigen` and is printed by the `*_tensor` functions)
+fn fmc3(m: &MP3) -> String { format!("{} {}", ff(m.mass()), d3::fp(&m.local_com)) }
 
 fn fmp2(m: &MP2) -> String { format!("{} {} {}", d2::fp(&m.local_com), ff(m.inv_mass), ff(m.inv_principal_inertia_sqrt)) }
 fn hmp2(m: &MP2) -> String { format!("{} {} {}", d2::hp(&m.local_com), hx(m.inv_mass), hx(m.inv_principal_inertia_sqrt)) }
@@ -41,6 +60,24 @@ pub fn exec(func: &str, a: &mut Args) -> String {
         "mp2_add" => { let x = mp2(a); let y = mp2(a); fmp2(&(x + y)) }
         "mp2_sub" => { let x = mp2(a); let y = mp2(a); fmp2(&(x - y)) }
         "mp2_sum" => { let n = a.u(); let v: Vec<MP2> = (0..n).map(|_| mp2(a)).collect(); fmp2(&v.into_iter().sum::<MP2>()) }
+        "from_ball3" => { let d = a.f(); let r = a.f(); fmp3(&MP3::from_ball(d, r)) }
+        "from_cuboid3" => { let d = a.f(); let he = d3::v(a); fmp3(&MP3::from_cuboid(d, he)) }
+        "from_cylinder" => { let d = a.f(); let hh = a.f(); let r = a.f(); fmp3(&MP3::from_cylinder(d, hh, r)) }
+        "from_cone" => { let d = a.f(); let hh = a.f(); let r = a.f(); fmp3(&MP3::from_cone(d, hh, r)) }
+        "from_capsule3" => { let d = a.f(); let p = d3::p(a); let q = d3::p(a); let r = a.f(); let m = MP3::from_capsule(d, p, q, r);
+            format!("{} {} {}", d3::fp(&m.local_com), ff(m.inv_mass), d3::fv(&m.inv_principal_inertia_sqrt)) }
+        "from_capsule3_frame" => { let d = a.f(); let p = d3::p(a); let q = d3::p(a); let r = a.f(); let m = MP3::from_capsule(d, p, q, r);
+            fquat(&m.principal_inertia_local_frame) }
+        "mp3_new" => { let c = d3::p(a); let m = a.f(); let i = d3::v(a); let p = MP3::new(c, m, i);
+            format!("{} {} {}", fmp3(&p), ff(p.mass()), d3::fv(&p.principal_inertia())) }
+        "mp3_reconstruct" => { let p = mp3(a); fm3(&p.reconstruct_inertia_matrix()) }
+        "mp3_transform" => { let p = mp3(a); let m = d3::iso(a); fmp3(&p.transform_by(&m)) }
+        "mp3_add" => { let x = mp3(a); let y = mp3(a); fmc3(&(x + y)) }
+        "mp3_sub" => { let x = mp3(a); let y = mp3(a); fmc3(&(x - y)) }
+        "mp3_sum" => { let n = a.u(); let v: Vec<MP3> = (0..n).map(|_| mp3(a)).collect(); fmc3(&v.into_iter().sum::<MP3>()) }
+        "mp3_add_tensor" => { let x = mp3(a); let y = mp3(a); fm3(&(x + y).reconstruct_inertia_matrix()) }
+        "mp3_sub_tensor" => { let x = mp3(a); let y = mp3(a); fm3(&(x - y).reconstruct_inertia_matrix()) }
+        "mp3_sum_tensor" => { let n = a.u(); let v: Vec<MP3> = (0..n).map(|_| mp3(a)).collect(); fm3(&v.into_iter().sum::<MP3>().reconstruct_inertia_matrix()) }
         _ => "nofn".into(),
     }
 }
@@ -176,6 +213,28 @@ fn gen_full_mp2(r: &mut Rng, lat: bool) -> MP2 {
     MP2::new(com, mass, inertia)
 }
 
+/// 3-D mass properties with moderate magnitudes (the `+ - sum` comparison is relative to the tensor norm)
+fn gen_mp3(r: &mut Rng, lat: bool) -> MP3 {
+    let k = r.below(12);
+    if k == 0 { return d3::na::zero::<MP3>(); }
+    let com = d3::gen_p(r, lat, 10.0);
+    let mass = if lat { *r.pick(&[0.5, 1.0, 2.0, 3.0, 4.0]) } else { r.logu(1e-1, 1e2) };
+    let pi = |r: &mut Rng| if lat { *r.pick(&[0.25, 1.0, 2.25, 4.0, 16.0]) } else { r.logu(1e-2, 1e2) };
+    let i = V3::new(pi(r), pi(r), pi(r));
+    let q = d3::gen_quat(r, lat);
+    let frame = d3::na::Unit::new_unchecked(d3::na::Quaternion::new(q[3], q[0], q[1], q[2]));
+    match k {
+        1 => MP3::with_principal_inertia_frame(com, 0.0, i, frame),
+        2 => MP3::with_principal_inertia_frame(com, mass, V3::zeros(), frame),
+        3 => MP3::new(com, mass, i),
+        4 => MP3::with_principal_inertia_frame(d3::Point::origin(), mass, V3::new(i.x, i.x, i.x), frame),
+        _ => MP3::with_principal_inertia_frame(com, mass, i, frame),
+    }
+}
+fn gen_full_mp3(r: &mut Rng, lat: bool) -> MP3 {
+    loop { let m = gen_mp3(r, lat); if m.inv_mass != 0.0 && m.inv_principal_inertia_sqrt.iter().all(|e| *e != 0.0) { return m; } }
+}
+
 pub fn gen(r: &mut Rng, thorough: bool) -> Vec<(String, String)> {
     let n = if thorough { 4000 } else { 400 };
     let mut v: Vec<(String, String)> = Vec::new();
@@ -220,6 +279,41 @@ pub fn gen(r: &mut Rng, thorough: bool) -> Vec<(String, String)> {
         let k = r.below(6) as usize;
         let ms: Vec<MP2> = (0..k).map(|_| gen_mp2(r, lat)).collect();
         v.push(("mp2_sum".into(), format!("{} {}", k, ms.iter().map(hmp2).collect::<Vec<_>>().join(" "))));
+        // ---------------- 3-D
+        v.push(("from_ball3".into(), format!("{} {}", hx(d), hx(rad))));
+        v.push(("from_cuboid3".into(), format!("{} {}", hx(d), d3::hv(&d3::gen_he(r, lat)))));
+        let hh = r.pos_extent(lat);
+        v.push(("from_cylinder".into(), format!("{} {} {}", hx(d), hx(hh), hx(rad))));
+        v.push(("from_cone".into(), format!("{} {} {}", hx(d), hx(hh), hx(rad))));
+        let pa = d3::gen_p(r, lat, 10.0);
+        let pb = match r.below(7) { 0 => pa, 1 => pa + V3::new(0.0, r.pos_extent(lat), 0.0), 2 => pa - V3::new(0.0, r.pos_extent(lat), 0.0),
+            3 => pa + V3::new(1.0, 2.0, 2.0) * r.pos_extent(lat), 4 => pa + V3::new(r.pos_extent(lat), 0.0, 0.0), _ => d3::gen_p(r, lat, 10.0) };
+        let cap = format!("{} {} {} {}", hx(d), d3::hp(&pa), d3::hp(&pb), hx(rad));
+        v.push(("from_capsule3".into(), cap.clone()));
+        v.push(("from_capsule3_frame".into(), cap));
+        let pin = if lat { V3::new(*r.pick(&[0.0, 0.25, 1.0, 9.0]), *r.pick(&[0.25, 1.0, 2.0]), *r.pick(&[0.0, 4.0, 3.0])) } else { V3::new(r.logu(1e-3, 1e4), r.logu(1e-3, 1e4), r.logu(1e-3, 1e4)) };
+        v.push(("mp3_new".into(), format!("{} {} {}", d3::hp(&d3::gen_p(r, lat, 50.0)), hx(mass), d3::hv(&pin))));
+        let (x3, y3) = (gen_mp3(r, lat), gen_mp3(r, lat));
+        let m3 = d3::gen_iso(r, lat, 20.0);
+        v.push(("mp3_reconstruct".into(), hmp3(&x3)));
+        v.push(("mp3_transform".into(), format!("{} {}", hmp3(&x3), d3::hiso(&m3))));
+        v.push(("mp3_add".into(), format!("{} {}", hmp3(&x3), hmp3(&y3))));
+        v.push(("mp3_add_tensor".into(), format!("{} {}", hmp3(&x3), hmp3(&y3))));
+        { let z = gen_full_mp3(r, lat);
+          let big = if r.bool() { z + y3 } else { (z + x3) + y3 };
+          v.push(("mp3_sub".into(), format!("{} {}", hmp3(&big), hmp3(&y3))));
+          v.push(("mp3_sub_tensor".into(), format!("{} {}", hmp3(&big), hmp3(&y3)))); }
+        let k3 = r.below(5) as usize;
+        let ms3: Vec<MP3> = (0..k3).map(|_| gen_mp3(r, lat)).collect();
+        let sum3 = format!("{} {}", k3, ms3.iter().map(hmp3).collect::<Vec<_>>().join(" "));
+        v.push(("mp3_sum".into(), sum3.clone()));
+        v.push(("mp3_sum_tensor".into(), sum3));
+        if k3 > 0 {
+            let tm: Vec<MP3> = ms3.iter().map(|p| p.transform_by(&m3)).collect();
+            let sum3 = format!("{} {}", k3, tm.iter().map(hmp3).collect::<Vec<_>>().join(" "));
+            v.push(("mp3_sum".into(), sum3.clone()));
+            v.push(("mp3_sum_tensor".into(), sum3));
+        }
         // covariance / tessellation identities on real outputs: transform of parts then sum
         if k > 0 {
             let tm: Vec<MP2> = ms.iter().map(|p| p.transform_by(&m)).collect();
